@@ -1,7 +1,10 @@
 (* C03 -- Bucket.get's rounding of the window (Model/Window.v) in closed form:
-   start |-> floor to the millisecond, end |-> floor to the millisecond + 1 ms, for every
-   utcoffset that is a whole number of milliseconds; for arbitrary offsets the floor is taken
-   on the local wall clock.  Pure integer arithmetic. *)
+   start |-> floor to the millisecond, end |-> floor to the millisecond + 1 ms of the UTC
+   instant, for EVERY utcoffset (bucket_round_tz_closed: since 49e3288 the code converts an
+   aware edge to UTC before rounding).  The rounding arithmetic on a reading at offset off
+   (round_start_tz / round_end_tz, what the code did before on the local reading) floors on
+   that reading's clock: the same instants for whole-millisecond offsets only.
+   Pure integer arithmetic. *)
 From Coq Require Import ZifyBool.
 From AwVerif Require Import Base.Prelude Model.StoreBase Model.Window.
 
@@ -77,6 +80,35 @@ Theorem round_tz_bounds : forall utc off,
 Proof.
   intros utc off. rewrite round_start_tz_closed, round_end_tz_closed.
   pose proof (Z.mod_pos_bound (utc + off) 1000 ltac:(lia)). lia.
+Qed.
+
+(* the code (UTC reading first): every utcoffset, closed form on the instant *)
+Theorem bucket_round_tz_instant : forall utc off,
+  bucket_round_start_tz utc off = round_start utc /\ bucket_round_end_tz utc off = round_end utc.
+Proof. intros. split; reflexivity. Qed.
+
+Theorem bucket_round_tz_closed : forall utc off,
+  bucket_round_start_tz utc off = floor_ms utc /\ bucket_round_end_tz utc off = floor_ms utc + 1000.
+Proof.
+  intros utc off. destruct (bucket_round_tz_instant utc off) as [-> ->].
+  now rewrite round_start_closed, round_end_closed.
+Qed.
+
+(* sensitivity: rounding on the local reading (the code before 49e3288) is NOT a function of the
+   instant alone once the offset is not a whole millisecond ... *)
+Lemma round_tz_sub_ms_differs :
+  round_start_tz 1600000000000600 500 <> round_start 1600000000000600 /\
+  round_end_tz 1600000000000600 500 <> round_end 1600000000000600.
+Proof. split; vm_compute; discriminate. Qed.
+
+(* ... and the old end rounding of an edge in the second reading of a repeated wall-clock hour
+   lands one offset change early: exactly off0 - off1 before the present result *)
+Theorem old_round_end_fold_early : forall utc off1 off0, off1 mod 1000 = 0 ->
+  old_round_end_fold utc off1 off0 = bucket_round_end_tz utc off1 - (off0 - off1).
+Proof.
+  intros utc off1 off0 H. unfold old_round_end_fold.
+  destruct (round_tz_whole_ms utc off1 H) as [_ ->].
+  destruct (bucket_round_tz_instant utc off1) as [_ ->]. lia.
 Qed.
 
 Lemma floor_ms_bounds : forall t, t - 1000 < floor_ms t <= t.
